@@ -58,6 +58,7 @@ class Sim:
         self.events, self.count, self.crash_at = [], 0, None
         self.launches = []
         self.in_operator = False
+        self.cur_job = (99, 99)
 
     # ---- step / path helpers ----
     def step_of(self, path):
@@ -201,7 +202,7 @@ class Sim:
             r = real["unlink"](path, *a, **k)
             kind = FILE_KIND.get(os.path.basename(os.fspath(path)))
             if kind:
-                sim.events.append({"ev": "rm", "k": kind})
+                sim.events.append({"ev": "rm", "k": kind, "s": list(sim.cur_job)})
             return r
 
         def w_rmdir(path, *a, **k):
@@ -210,7 +211,7 @@ class Sim:
             sim.tick()
             r = real["rmdir"](path, *a, **k)
             if re.fullmatch(r"plate_\d+", os.path.basename(os.fspath(path))):
-                sim.events.append({"ev": "rmdir"})
+                sim.events.append({"ev": "rmdir", "s": list(sim.cur_job)})
             return r
         orig_scan = mod.examine_output_dir_to_determine_current_iteration
         orig_sel = mod.get_selected_plates
@@ -230,6 +231,13 @@ class Sim:
             r = orig_sel(d)
             sim.events.append({"ev": "decide", "excl_steps": sorted([int(y) for y in x.split("-")[1:3]] for x in (r or []))})
             return r
+        real_rmtree = shutil.rmtree
+
+        def rmtree(path, *a, **k):
+            st = sim.step_of(path)
+            sim.cur_job = st if st and st[1] is not None else (99, 99)
+            return real_rmtree(path, *a, **k)
+        mod.shutil = type("ShutilProxy", (), {"rmtree": staticmethod(rmtree)})
         mod.examine_output_dir_to_determine_current_iteration = scan
         mod.get_selected_plates = sel
         mod.subprocess.check_call = self.pipeline
@@ -261,6 +269,7 @@ class Sim:
             sys.argv = old_argv
             mod.examine_output_dir_to_determine_current_iteration = orig_scan
             mod.get_selected_plates = orig_sel
+            mod.shutil = shutil
 
     def tree(self):
         t = {}
@@ -327,8 +336,11 @@ CFG_PROP = ["NoRelaunchOfCompleted", "NoSkipStrict"]
 ACTIONS = ["Start", "Scan", "Decide", "RmDir", "MkIter", "MkPlate", "Launch", "Publish", "PipelineDone", "Crash", "OperatorRemove"]
 
 
-def consts(mode, B, U0, max_iter, max_crash):
-    return {"B": B, "U0": U0, "MaxIter": max_iter, "Mode": mode, "MaxCrash": max_crash, "BugReset": False, "MetaOnly": False}
+def consts(mode, B, U0, max_iter, max_crash, strict=None):
+    c = {"B": B, "U0": U0, "MaxIter": max_iter, "Mode": mode, "MaxCrash": max_crash, "BugReset": False, "MetaOnly": False}
+    if strict is not None:
+        c["Strict"] = strict
+    return c
 
 
 def run(ctx):
@@ -383,17 +395,31 @@ def run(ctx):
             if t["outcome"] == "too-many-reruns":
                 ctx.violation("rerunning never ends (%s B=%d crashes at %s)" % (mode, B, t["crashes"]),
                               {"kind": "schedule", "mode": mode, "B": B, "U0": U0, "crashes": t["crashes"]})
+        # verdict on the property: liberal replay (filesystem, pipeline, ghosts; the script's decisions as observed)
         bad = validate(ctx, "TraceOrchestrator", traces, decide=None, next_="TNext", init="TInit", constraint="C19Clauses",
-                       constants=consts(mode, B, U0, max_iter, 99), note="%s B=%d U0=%d, %d mutation points" % (mode, B, U0, M), chunk=1500)
+                       constants=consts(mode, B, U0, max_iter, 99, strict=False),
+                       note="property clauses on %s B=%d U0=%d, %d mutation points" % (mode, B, U0, M), chunk=1500)
         shown = 0
         for i, clause in bad:
             t = traces[i]
-            key = _classify(t, clause)
-            if shown < 3 or key:
+            if shown < 3:
                 what = "%s B=%d U0=%d, crash before mutation(s) %s: rejected at '%s' (outcome %s); last events %s" % (
                     mode, B, U0, t["crashes"], clause, t["outcome"], [e["ev"] for e in t["events"]][-6:])
-                ctx.finding(key or "C19/unlisted", what, {"kind": "schedule", "mode": mode, "B": B, "U0": U0, "crashes": t["crashes"], "clause": clause})
+                ctx.violation(what, {"kind": "schedule", "mode": mode, "B": B, "U0": U0, "crashes": t["crashes"], "clause": clause})
                 shown += 1
+        # conformance of the script's control flow to Orchestrator.tla: binds the design-level TLC result to this code
+        before = ctx.traces
+        drift = validate(ctx, "TraceOrchestrator", traces, decide=None, next_="TNext", init="TInit", constraint="C19Clauses",
+                         constants=consts(mode, B, U0, max_iter, 99, strict=True),
+                         note="control-flow conformance %s B=%d U0=%d" % (mode, B, U0), chunk=1500)
+        ctx.traces = before + (ctx.traces - before) // 1
+        only_drift = [d for d in drift if d[0] not in {b[0] for b in bad}]
+        ctx.extra.setdefault("model_drift", {})["%s-B%d-U%d" % (mode, B, U0)] = len(only_drift)
+        if only_drift:
+            i, clause = only_drift[0]
+            print("NOTE model-drift property=C19: %d schedule(s) satisfy every clause of C19 but are not behaviours of Orchestrator.tla "
+                  "(first: crashes %s at '%s'); the specification of the script's control flow needs updating" % (
+                      len(only_drift), traces[i]["crashes"], clause))
         ctx.sample({"schedule": {k: traces[min(3, len(traces) - 1)][k] for k in ("mode", "B", "U0", "crashes", "outcome")},
                     "events": [e["ev"] for e in traces[min(3, len(traces) - 1)]["events"]][:40]})
         ctx.extra.setdefault("mutation_points", {})["%s-B%d-U%d" % (mode, B, U0)] = M
@@ -415,6 +441,6 @@ def replay(ctx, rp):
     out, M, ref, ref_tree, _ = reference(mod, mode, B, U0, 2, ctx.seed)
     t = schedule(mod, mode, B, U0, 2, rp["crashes"], ref, ref_tree, ctx.seed)
     bad = validate(ctx, "TraceOrchestrator", [t], decide=None, next_="TNext", init="TInit", constraint="C19Clauses",
-                   constants=consts(mode, B, U0, 2, 99))
+                   constants=consts(mode, B, U0, 2, 99, strict=False))
     for i, clause in bad:
         ctx.violation("replay: rejected at '%s' (outcome %s)" % (clause, t["outcome"]), rp)
